@@ -9,6 +9,8 @@ mod exact;
 mod driver;
 #[path = "../c16.rs"]
 mod c16;
+#[path = "../c11.rs"]
+mod c11;
 #[path = "../c12.rs"]
 mod c12;
 
